@@ -228,6 +228,19 @@ func prepareQuery(q *Query) {
 			}
 		}
 	}
+	// ground (div t c) terms outside quantifiers: indices derived from positions
+	var divs []*Term
+	seenD := map[string]bool{}
+	collectDivs(q.Goal, &divs, seenD)
+	for _, h := range q.Hyps {
+		collectDivs(h, &divs, seenD)
+	}
+	for _, d := range divs {
+		if len(cands[SInt]) < 18 && !seenC[d.String()] {
+			seenC[d.String()] = true
+			cands[SInt] = append(cands[SInt], d)
+		}
+	}
 	if len(sks) == 0 {
 		cands = map[Sort][]*Term{}
 	}
@@ -295,5 +308,21 @@ func collectBoundsIn(t *Term, out *[]*Term) {
 		}
 	} else if t.Kind == KQuant {
 		collectBoundsIn(t.Args[0], out)
+	}
+}
+
+func collectDivs(t *Term, out *[]*Term, seen map[string]bool) {
+	switch t.Kind {
+	case KApp:
+		if t.Op == "div" && !mentionsBound(t, nil) && termSize(t, 40) < 40 {
+			k := t.String()
+			if !seen[k] {
+				seen[k] = true
+				*out = append(*out, t)
+			}
+		}
+		for _, a := range t.Args {
+			collectDivs(a, out, seen)
+		}
 	}
 }
